@@ -9,13 +9,27 @@ cd $WT && git checkout -q -- . && git clean -fdq
 RACE=""; [ "$ID" = C18 ] && RACE="-race"
 mods=$(cd $OUT/demo && ls -d */ 2>/dev/null | tr -d /)
 cp -r $OUT/demo/*/ $WT/ 2>/dev/null
-rundemo() { for m in $mods; do (cd $WT/$m && timeout 600 go test $RACE -vet=off -count=1 -run 'MutDemo' ./... 2>&1 | tail -3 | tr '\n' ' '); done; }
+# Demonstrations of changes under protocol/ seen through service/attachment/terminal need the local protocol/ and shared/
+# trees: the agent's own *.mod file if it delivered one, else a temporary copy of go.mod with replace lines.
+modflag() {
+  m=$1; MF=""
+  own=$(ls $OUT/demo/$m/*.mod 2>/dev/null | head -1)
+  if [ -n "$own" ]; then MF="-modfile=$(basename $own)"
+  elif [ "$m" != protocol ] && grep -q modfile $OUT/demo/RUN.txt 2>/dev/null; then
+    D=$(mktemp -d /tmp/mf.XXXXXX); cp $WT/$m/go.mod $D/go.mod; cat $WT/$m/go.sum $WT/protocol/go.sum $WT/shared/go.sum 2>/dev/null | sort -u > $D/go.sum
+    printf '\nreplace github.com/cuteLittleDevil/go-jt808/protocol => %s/protocol\nreplace github.com/cuteLittleDevil/go-jt808/shared => %s/shared\n' $WT $WT >> $D/go.mod
+    MF="-modfile=$D/go.mod"
+  fi
+  echo "$MF"
+}
+TAGS=""; grep -q -- "-tags" $OUT/demo/RUN.txt 2>/dev/null && TAGS="-tags $(grep -o -- '-tags[= ][a-z_]*' $OUT/demo/RUN.txt | head -1 | sed 's/-tags[= ]//')"
+rundemo() { for m in $mods; do (cd $WT/$m && timeout 900 go test $RACE $TAGS $(modflag $m) -vet=off -count=1 -run 'MutDemo' ./... 2>&1 | tail -3 | tr '\n' ' '); done; rm -rf /tmp/mf.*; }
 echo "[demo without change] $(rundemo)"
 git apply $OUT/patch.diff || { echo "PATCH DOES NOT APPLY"; exit 1; }
 B=ok; for m in protocol service attachment terminal; do (cd $WT/$m && go build ./... && go vet ./... ) >/dev/null 2>&1 || B="BUILD/VET FAIL in $m"; done
 echo "[build+vet with change] $B"
 # existing suite (demo files are removed for this so that only the project's own tests run)
-find $WT -name 'mutdemo*' -delete
+find $WT -name 'mutdemo*' -delete; git -C $WT checkout -q -- '*.sum' '*.mod' 2>/dev/null
 S=ok; for m in protocol service terminal; do (cd $WT/$m && go test -vet=off -count=1 ./... >/dev/null 2>&1) || S="SUITE FAIL in $m"; done
 echo "[suite with change] $S"
 cp -r $OUT/demo/*/ $WT/ 2>/dev/null
